@@ -24,7 +24,10 @@ EXTENDS Tiered, TLC, Json, IOUtils
 Tab == JsonDeserialize(IOEnv.TRACE_FILE)
 TimeMax == Tab.timemax
 
-Times(p) == [1..p -> 0..TimeMax]
+\* the tier values of the departure times over which delays are compared pointwise: 0..TimeMax, or an explicit list
+\* (tables with LARGE tier values, e.g. {0, 1, 300, 301})
+TimeVals == IF "tvals" \in DOMAIN Tab THEN {Tab.tvals[i] : i \in 1..Len(Tab.tvals)} ELSE 0..TimeMax
+Times(p) == [1..p -> TimeVals]
 IvLeq(a, b) == \A t \in Times(a.p) : TLeq(Apply(t, a), Apply(t, b))
 IvEq(a, b)  == \A t \in Times(a.p) : Apply(t, a) = Apply(t, b)
 Comparable(a, b) == IvLeq(a, b) \/ IvLeq(b, a)
